@@ -1,6 +1,8 @@
 package main
 
 import (
+	"regexp/syntax"
+	"unicode/utf8"
 	"fmt"
 	"go/constant"
 	"go/types"
@@ -332,10 +334,11 @@ func minLenFromFacts(facts FactSet, d string) int64 {
 func ruleConstIndexGuarded(c *Ctx) {
 	R := c.R
 	R.Rule("R-const-index-guarded", "E3 must-facts + length arithmetic", "constant indexes and slice bounds on strings/slices in the server's parsing and command handling are within the length established by guards on the same value", 12)
+	ruleRegexpCallbackShapes(c)
 	exempt := map[string]string{
 		"(*parser).readByte/parser.s": "guarded through peekByte's ok result (len(p.s) != 0 inside peekByte)",
 		"(*parser).expectByte/parser.s": "guarded by the len(p.s) == 0 test of the same function",
-		"decodeUTF8AddrXtext$1/param0":  "the callback only receives matches of eUOrDCharRe: one character (handled first) or \\x{H+} with at least 5 octets",
+		"decodeUTF8AddrXtext$1/param0":  "the callback only receives matches of eUOrDCharRe: one octet (handled first) or \\x{H+} with at least 5 octets — checked against the pattern by ruleRegexpCallbackShapes",
 	}
 	for _, f := range c.P.AllFuncs() {
 		n := funcName(f)
@@ -401,4 +404,153 @@ func ruleConstIndexGuarded(c *Ctx) {
 			}
 		})
 	}
+}
+
+// regexpAltLens: for the constant pattern compiled into the package-level regexp variable `name`, the minimum and
+// maximum match length in octets of every top-level alternative (max < 0 means unbounded).
+func regexpAltLens(c *Ctx, name string) (pattern string, alts [][2]int, problem string) {
+	var pat string
+	found := false
+	for _, f := range c.P.AllFuncs() {
+		if f.Name() != "init" {
+			continue
+		}
+		allInstrs(f, func(in ssa.Instruction) {
+			st, ok := in.(*ssa.Store)
+			if !ok {
+				return
+			}
+			g, ok := st.Addr.(*ssa.Global)
+			if !ok || g.Name() != name {
+				return
+			}
+			if call, ok := st.Val.(*ssa.Call); ok {
+				if callee := staticCallee(&call.Call); callee != nil && qualFuncName(callee) == "regexp.MustCompile" {
+					if k, ok := constString(call.Call.Args[0]); ok {
+						pat, found = k, true
+					}
+				}
+			}
+		})
+	}
+	if !found {
+		return "", nil, "pattern of " + name + " is not a constant compiled in the package initialiser"
+	}
+	re, err := syntax.Parse(pat, syntax.Perl)
+	if err != nil {
+		return pat, nil, "pattern does not parse: " + err.Error()
+	}
+	var lens func(r *syntax.Regexp) (int, int)
+	add := func(a, b int) int {
+		if a < 0 || b < 0 {
+			return -1
+		}
+		return a + b
+	}
+	lens = func(r *syntax.Regexp) (int, int) {
+		switch r.Op {
+		case syntax.OpEmptyMatch, syntax.OpBeginLine, syntax.OpEndLine, syntax.OpBeginText, syntax.OpEndText, syntax.OpWordBoundary, syntax.OpNoWordBoundary:
+			return 0, 0
+		case syntax.OpLiteral:
+			n := 0
+			for _, ru := range r.Rune {
+				n += utf8.RuneLen(ru)
+			}
+			return n, n
+		case syntax.OpCharClass:
+			mn, mx := 4, 0
+			for i := 0; i+1 < len(r.Rune); i += 2 {
+				lo, hi := utf8.RuneLen(r.Rune[i]), utf8.RuneLen(r.Rune[i+1])
+				if lo < mn {
+					mn = lo
+				}
+				if hi > mx {
+					mx = hi
+				}
+			}
+			return mn, mx
+		case syntax.OpAnyChar, syntax.OpAnyCharNotNL:
+			return 1, 4
+		case syntax.OpCapture:
+			return lens(r.Sub[0])
+		case syntax.OpConcat:
+			mn, mx := 0, 0
+			for _, s := range r.Sub {
+				a, b := lens(s)
+				mn += a
+				mx = add(mx, b)
+			}
+			return mn, mx
+		case syntax.OpAlternate:
+			mn, mx := 1<<30, 0
+			for _, s := range r.Sub {
+				a, b := lens(s)
+				if a < mn {
+					mn = a
+				}
+				if b < 0 || mx < 0 {
+					mx = -1
+				} else if b > mx {
+					mx = b
+				}
+			}
+			return mn, mx
+		case syntax.OpStar:
+			return 0, -1
+		case syntax.OpPlus:
+			a, _ := lens(r.Sub[0])
+			return a, -1
+		case syntax.OpQuest:
+			_, b := lens(r.Sub[0])
+			return 0, b
+		case syntax.OpRepeat:
+			a, b := lens(r.Sub[0])
+			mx := -1
+			if r.Max >= 0 && b >= 0 {
+				mx = b * r.Max
+			}
+			return a * r.Min, mx
+		}
+		return 0, -1
+	}
+	top := []*syntax.Regexp{re}
+	if re.Op == syntax.OpAlternate {
+		top = re.Sub
+	}
+	for _, a := range top {
+		mn, mx := lens(a)
+		alts = append(alts, [2]int{mn, mx})
+	}
+	return pat, alts, ""
+}
+
+// ruleRegexpCallbackShapes: the replacement callbacks index into the match they are given; what they may assume
+// about its length is decided from the pattern itself.
+func ruleRegexpCallbackShapes(c *Ctx) {
+	R := c.R
+	pat, alts, problem := regexpAltLens(c, "eUOrDCharRe")
+	if problem != "" {
+		R.Und("eUOrDCharRe/pattern", "-", problem)
+		return
+	}
+	// decodeUTF8AddrXtext$1 returns early for len(match) == 1 and then slices match[3:len(match)-1]
+	bad := ""
+	for i, a := range alts {
+		if a[0] == 1 && a[1] == 1 {
+			continue
+		}
+		if a[0] >= 4 {
+			continue
+		}
+		bad = fmt.Sprintf("alternative %d of %q matches between %d and %d octets: the callback treats everything longer than one octet as \\x{...} and slices match[3:len-1], which panics for a %d-octet match (e.g. a two-octet UTF-8 control character)", i+1, pat, a[0], a[1], a[0]+boolInt(a[0] == 1))
+		break
+	}
+	R.Ob("eUOrDCharRe/every alternative is one octet or at least four", "-", bad == "", bad)
+}
+
+func boolInt(b bool) int {
+	if b {
+		return 1
+	}
+	return 0
 }
